@@ -238,7 +238,9 @@ def build_bundle(rec):
     arr(".C", np.exp(-tt * 30.0) * np.cos(tt * 100.0) + rng.normal(0, 0.01, size=n_ser), "series_C")
     M = int(rng.integers(2, 6))
     arr(".eigf", rng.uniform(0.5, 3.0, size=M), "eigfreq")
-    arr(".eigv", rng.normal(0, 1, size=(N * ndim, M)), "eigvec")
+    ev = rng.normal(0, 1, size=(N * ndim, M))
+    # eigenvector tables as scipy.linalg.eigh / LAPACK deliver them (column-major) or as numpy does
+    arr(".eigv", np.asfortranarray(ev) if rec["subseed"] % 3 == 1 else ev, "eigvec")
     gofr = rng.uniform(0.2, 2.0, size=15)
     if rng.random() < 0.6:
         gofr[: int(rng.integers(1, 5))] = 0.0          # the excluded core: exactly empty bins, as a measured g(r) has
